@@ -185,6 +185,20 @@ theorem classes_length : fnClasses.length = CJ.Gen.errFns.length := by
   have := checkFrom_length fnClasses 0 resolved fnClasses classes_fixpoint
   simpa [resolved] using this
 
+/-- **a guard is not a licence**: the one exempt diagnostic is exempt only under the guard it was reviewed
+with; the same call under a widened guard (data returned together with an error) is an ordinary call site,
+and it fails `Site.ok` because it prints a raw read error of a client connection -/
+def exemptSite (guard : String) : Site :=
+  { file := "pkg/station/lib/proxies.go", fn := "halfPipe", line := 172, level := .error,
+    format := "unexpected read len error - up:%t (%dB): %s", guard := guard,
+    args := [.lit, .num, .err (.err false false ⟨"src.Read", [], true⟩)] }
+
+theorem exemption_is_guard_specific :
+    (exemptSite "er != nil && nr > len(buf)").exempt = true ∧
+    (exemptSite "er != nil && nr > 0 && !errors.Is(er, io.EOF)").exempt = false ∧
+    Site.ok reviewedLevels [] (exemptSite "er != nil && nr > 0 && !errors.Is(er, io.EOF)") = false := by
+  decide +kernel
+
 /-- the level table observed on the code lists every level (none is emitted merely because it is missing) -/
 theorem level_table_complete (l : Level) : (CJ.Gen.levelEmitted.lookup l).isSome = true := by
   cases l <;> decide
@@ -209,7 +223,7 @@ addresses only inside operation errors reachable by `Unwrap` —, listed non-cli
 client address), what an emitted, non-exempt call site prints contains no client address: raw errors are
 clean, errors handed to `generalizeErr` are at most structured, and the sanitiser removes what they name. -/
 theorem site_render_no_client (s : Site) (hs : s ∈ CJ.Gen.logSites)
-    (hem : emittedBy CJ.Gen.levelEmitted s.level = true) (hex : exemptFormats.contains s.format = false)
+    (hem : emittedBy CJ.Gen.levelEmitted s.level = true) (hex : s.exempt = false)
     (env : Env) (hok : env.Ok fnClasses) : noClient (renderSite env s) = true :=
   site_ok_noClient CJ.Gen.levelEmitted fnClasses s (sites_no_addr s hs) hem hex env hok
 
